@@ -823,7 +823,9 @@ public:
   ///In normal use there is no reason to call this function, as it prevents the
   ///quick reuse of memory which has previously been allocated
   static void clear_mem_cache(){
-    for(unsigned int dim=1; dim<=SQUIDS_MAX_HILBERT_DIM; dim++){
+    //index 0 is used too: assigning an empty vector gives the target an
+    //(empty) block of dimension 0 which is cached like any other on release
+    for(unsigned int dim=0; dim<=SQUIDS_MAX_HILBERT_DIM; dim++){
       mem_cache_entry cache_result;
       while(true){
         cache_result=storage_cache[dim].get();
